@@ -92,6 +92,13 @@ SUPPORT_NAME = {"c": "serialization.j2", "cpp": "serialization.j2", "py": "nunav
 SUPPORT_SETS = {
     "override": lambda lang: {SUPPORT_NAME[lang]: "{# user support template #}\nUSER SUPPORT for {{ nunavut.support.namespace | join('.') }}\n"},
     "unrelated": lambda lang: {"not_a_support_file.j2": "never used\n"},
+    # a same-named template in a sub-folder (an old copy kept around): names are paths, only the top-level one is rendered
+    "subdir_shadow": lambda lang: {
+        SUPPORT_NAME[lang]: "{# user support template #}\nUSER SUPPORT (top level) for {{ nunavut.support.namespace | join('.') }}\n",
+        "attic/" + SUPPORT_NAME[lang]: "{# old copy #}\nNEVER RENDERED (attic)\n",
+    },
+    # ... and the same without a top-level file: the built-in template is rendered
+    "subdir_only": lambda lang: {"attic/" + SUPPORT_NAME[lang]: "{# old copy #}\nNEVER RENDERED (attic)\n", "zz/" + SUPPORT_NAME[lang]: "NEVER RENDERED (zz)\n"},
 }  # type: typing.Dict[str, typing.Callable[[str], typing.Dict[str, str]]]
 
 
